@@ -15,7 +15,7 @@ import re
 from vlib import build, common
 
 JOB_HISTORIES = {"quick": 125, "thorough": 2500}
-TOTAL = {"quick": 2000, "thorough": 400000}
+TOTAL = {"quick": 24000, "thorough": 1200000}
 MAX_SHRINKS = {"quick": 72, "thorough": 200}
 CHUNK = 125
 
